@@ -503,7 +503,7 @@ class Inotify:
         if wd == -1:
             Inotify._raise_error()
         old_path = self._path_for_wd.get(wd)
-        if old_path is not None and old_path != path and not self._follow_symlink:
+        if old_path is not None and old_path != path:
             # The kernel hands out the descriptor the directory already has: it was renamed and has
             # been found again (by a walk) before the events of that rename were read. Its old name
             # must not be taken for it any more when those events arrive, and it has not left the tree.
